@@ -99,6 +99,46 @@ func CompareErr(op ops.Op, root string, osErr, libErr error) (what, msg string) 
 	return "", ""
 }
 
+// invalidSpellings are names fs.ValidPath rejects (C04 decides THAT they are rejected; here: what the error names).
+var invalidSpellings = []string{"", "/a", "a/", "a//b", "./a", "a/./b", "../a", "a/../b", "/"}
+
+// invalidStep: an operation one of whose names is invalid. There is no os twin for it (the os package has other rules for
+// names); the property's own words decide: the error is a *PathError / *LinkError whose path fields are the names the
+// caller passed -- not an inner or OS path, not an empty string unless the caller passed one.
+func (m *machine) invalidStep(op ops.Op) (string, string) {
+	sr := ops.ApplyFS(m.s.FS, op)
+	base := fmt.Sprintf("C05/%s %s:invalid-name", m.s.Kind, op.K)
+	if sr.Hung || sr.Panic != "" {
+		return base + ":crash", fmt.Sprintf("%v: %v", op, sr)
+	}
+	if sr.OK() {
+		m.diverged = true // accepted: C04's subject; the two worlds no longer correspond
+		return "", ""
+	}
+	if sr.Stage == "write:" || sr.Stage == "close:" {
+		return "", ""
+	}
+	m.nontrivial = true
+	if op.K == "rename" || op.K == "symlink" {
+		le, ok := sr.Err.(*hackpadfs.LinkError)
+		if !ok {
+			return base + ":type", fmt.Sprintf("error of %v is %T (%v), want *hackpadfs.LinkError", op, sr.Err, sr.Err)
+		}
+		if le.Old != op.P || le.New != op.P2 {
+			return base + ":path", fmt.Sprintf("error of %v names Old=%q New=%q, the caller passed %q %q (%v)", op, le.Old, le.New, op.P, op.P2, sr.Err)
+		}
+		return "", ""
+	}
+	pe, ok := sr.Err.(*hackpadfs.PathError)
+	if !ok {
+		return base + ":type", fmt.Sprintf("error of %v is %T (%v), want *hackpadfs.PathError", op, sr.Err, sr.Err)
+	}
+	if pe.Path != op.P {
+		return base + ":path", fmt.Sprintf("error of %v names %q, the caller passed %q (%v)", op, pe.Path, op.P, sr.Err)
+	}
+	return "", ""
+}
+
 type machine struct {
 	s          *subj.Subject
 	ref        *world.World
@@ -227,6 +267,29 @@ func run(t *testing.T, kind string) {
 				op := gen.Op(rt, tree, names, 3, rootMut)
 				if rootMut && rapid.IntRange(0, 5).Draw(rt, "atroot") == 0 {
 					op = ops.Op{K: rapid.SampledFrom([]string{"remove", "writefile", "mkdir", "removeall"}).Draw(rt, "rootop"), P: ".", Perm: 0o755, Data: []byte("r")}
+				}
+				if !m.diverged && rapid.IntRange(0, 7).Draw(rt, "invalidname") == 0 {
+					// one of the names is not a valid FS path
+					bad := rapid.SampledFrom(invalidSpellings).Draw(rt, "spelling")
+					k := rapid.SampledFrom([]string{"rename", "rename", "rename", "symlink", "mkdir", "mkdirall", "stat", "remove", "removeall", "openfile", "chmod", "chtimes", "readdir", "readfile", "writefile", "lstatorstat"}).Draw(rt, "invalid.k")
+					iop := ops.Op{K: k, P: bad, Perm: 0o755, Flag: os.O_RDWR | os.O_CREATE, Sec: 1_500_000_000, Data: []byte("x")}
+					if k == "rename" || k == "symlink" {
+						other := gen.Random(rt, names, 2, false, "invalid.other")
+						switch rapid.IntRange(0, 2).Draw(rt, "invalid.which") {
+						case 0:
+							iop.P, iop.P2 = bad, other
+						case 1:
+							iop.P, iop.P2 = other, bad
+						default:
+							iop.P, iop.P2 = bad, rapid.SampledFrom(invalidSpellings).Draw(rt, "spelling2")
+						}
+					}
+					rec.Step(iop)
+					rec.Class("invalid-name:" + k)
+					if sig, msg := m.invalidStep(iop); sig != "" {
+						rec.Failf(rt, sig, "%s", msg)
+					}
+					return
 				}
 				if m.skipOp(op) {
 					rt.Skip("mount-boundary operation")
@@ -461,6 +524,12 @@ func TestReplayAll(t *testing.T) {
 					var op ops.Op
 					if err := json.Unmarshal(raw, &op); err != nil {
 						return "bad-replay", err.Error()
+					}
+					if !hackpadfs.ValidPath(op.P) || ((op.K == "rename" || op.K == "symlink") && !hackpadfs.ValidPath(op.P2)) {
+						if sig, msg := m.invalidStep(op); sig != "" {
+							return sig, msg
+						}
+						continue
 					}
 					tree := gen.TreeOf(ops.SnapOS(m.ref.Root))
 					if sig, msg := m.step(op, sit.Of(op, tree)); sig != "" {
